@@ -1258,6 +1258,34 @@ fn drill_emode_two_debt_liquidation(sim: &mut Sim, ctx: &mut Ctx) -> Option<Tx> 
     }
     let c = want.ceil() as u64;
     sim.apply(Event::Tx(Tx::one("user", ix::deposit(&x.keys, b_acc, borrower.authority, b_ta_x, c, None))));
+    // variant: the borrower also carries an active but EMPTY slot in a third bank that has no
+    // e-mode entry at all (deposit N, withdraw exactly N without the "all" flag): an empty slot is
+    // not a debt and must not take part in the e-mode reconciliation
+    if ctx.rng.chance(1, 2) {
+        if let Some(b3) = plain.iter().find(|b| {
+            b.keys.bank != x.keys.bank
+                && b.keys.bank != b1.keys.bank
+                && b.keys.bank != b2.keys.bank
+                && model::bank_of(&sim.store, &b.keys.bank)
+                    .map(|k| k.config.asset_tag == 0 && k.emode.emode_config.entries.iter().all(|e| e.collateral_bank_emode_tag != tag))
+                    .unwrap_or(false)
+        }) {
+            if let Some(ta3) = borrower.tokens.get(&b3.keys.mint).cloned() {
+                let n = (token_balance(&sim.store, &ta3) / 1000).clamp(1, 1_000_000);
+                let o = sim.apply(Event::Tx(Tx::one("user", ix::deposit(&b3.keys, b_acc, borrower.authority, ta3, n, None))));
+                if o.map(|o| o.ok()).unwrap_or(false) {
+                    let rm = risk_metas(&sim.store, &b_acc, None, None);
+                    sim.apply(Event::Tx(Tx::one("user", ix::withdraw(&b3.keys, b_acc, borrower.authority, ta3, n, None, rm))));
+                    let empty_slot = model::account_of(&sim.store, &b_acc)
+                        .map(|a| a.lending_account.balances.iter().any(|p| p.active != 0 && p.bank_pk == b3.keys.bank && i80(p.asset_shares) < I80F48::ONE))
+                        .unwrap_or(false);
+                    if empty_slot {
+                        sim.stats.fault("drill_emode_empty_slot_in_entryless_bank");
+                    }
+                }
+            }
+        }
+    }
     for (b, take, ta) in &plan {
         let rm = risk_metas(&sim.store, &b_acc, Some(b.keys.bank), None);
         let o = sim.apply(Event::Tx(Tx::one("user", ix::borrow(&b.keys, b_acc, borrower.authority, *ta, *take, rm))))?;
